@@ -716,10 +716,11 @@ func (c *FuncCtx) havocLoop(st *State, li *loopInfo) {
 			var refs []string
 			for v := range li.modHeap.cells[k] {
 				pv, ok := st.vars[v]
-				if !ok || modified[v] || c.heapLocals[v] {
+				if !ok || (modified[v] && !c.heapLocals[v]) {
 					wholeNeeded = true
 					break
 				}
+				// for an address-taken local pv.S is its (fixed) reference
 				refs = append(refs, pv.S)
 			}
 			if wholeNeeded {
@@ -837,6 +838,12 @@ func (c *FuncCtx) needVariant(li *loopInfo, dec []*Clause) {
 
 func (c *FuncCtx) newLoopInfo(n ast.Node, pos token.Pos) *loopInfo {
 	li := &loopInfo{ord: c.loopOrd[n], node: n, pos: pos, extra: map[string]*Val{}}
+	// ghost names of the enclosing loops (idx_N, cnt_N, ...) stay visible
+	for _, g := range c.ghostStack {
+		for k, v := range g {
+			li.extra[k] = v
+		}
+	}
 	// names bound by "let" (pre-state values) are visible to invariants;
 	// parameter names denote the current values there
 	if c.contract != nil {
@@ -920,7 +927,10 @@ func (c *FuncCtx) execRange(st *State, x *ast.RangeStmt) []outcome {
 			next = mkAdd(k, "1")
 			ncnt = next
 		}
-		for _, o := range c.execBlock(b, x.Body.List) {
+		c.ghostStack = append(c.ghostStack, withPos(k, cnt).extra)
+		bodyOuts := c.execBlock(b, x.Body.List)
+		c.ghostStack = c.ghostStack[:len(c.ghostStack)-1]
+		for _, o := range bodyOuts {
 			switch o.kind {
 			case oNext, oContinue:
 				cont(o.st, next, ncnt)
